@@ -204,6 +204,11 @@ func main() {
 			got := m["AaaI"].CommercialAvailability
 			return len(got) == 2 && got[0] == "Life Technologies (1/98)" && got[1] == "Minotech (3/01)", fmt.Sprintf("suppliers=%q", got)
 		}},
+		{"rebase-empty-isoschizomers", func() (bool, string) {
+			txt := "REBASE codes for commercial sources of enzymes\n\n\n<1>A\n<2>\n<3>G^AATTC\n<4>\n<5>org\n<6>src\n<7>\n<8>ref\n"
+			got := rebase.Parse([]byte(txt))["A"].Isoschizomers
+			return len(got) == 0, fmt.Sprintf("isoschizomers of a record with an empty <2> line = %q", got)
+		}},
 		{"C17-ban-readmitted", func() (bool, string) {
 			for _, b := range primers.CreateBarcodesWithBannedSequences(3, 2, []string{"CC"}, nil) {
 				if strings.Contains(b, "CC") || strings.Contains(b, "GG") {
